@@ -21,6 +21,7 @@ type c07Case struct {
 	Massive bool         `json:"massive,omitempty"`
 	Exts    []string     `json:"exts,omitempty"`
 	Missing bool         `json:"missing,omitempty"` // target directory does not exist beforehand
+	PreOps  []string     `json:"preOps,omitempty"`  // From-Root: earlier operations on the same node tree (must not weaken validation)
 }
 
 func init() { registerReplay("c07", c07Check) }
@@ -67,6 +68,7 @@ func c07Check(c c07Case) string {
 	} else {
 		cs.Root = &c.Forest[0].Name
 		cs.Prog = preorderProgram(model.Merge(c.Forest)[0])
+		cs.PreOps = c.PreOps
 	}
 	cs.Opts.DryRun = c.DryRun
 	cs.Opts.Massive = c.Massive
@@ -117,6 +119,9 @@ func c07Check(c c07Case) string {
 func c07Record(col *collector, c c07Case) {
 	kinds, positions := c07Kinds(c.Forest)
 	cl := []string{"entry:" + c.Entry}
+	if len(c.PreOps) > 0 {
+		cl = append(cl, "after-earlier-calls-on-the-same-tree")
+	}
 	if c.DryRun {
 		cl = append(cl, "dry-run")
 	} else {
@@ -143,6 +148,8 @@ func c07Record(col *collector, c c07Case) {
 	col.eval(nontrivial, hash64(fmt.Sprint(c)), cl...)
 	col.sample(func() any { return map[string]any{"forest": c.Forest.String(), "entry": c.Entry, "dryRun": c.DryRun, "massive": c.Massive, "exts": c.Exts} })
 }
+
+var preOpPool = []string{"output", "output-custom", "output-massive", "json", "walk", "walkiter", "walkiter-break", "dryrun", "verify", "verify-massive"}
 
 func c07Hostile(entry string) []string {
 	var out []string
@@ -191,6 +198,9 @@ func TestC07Exhaustive(t *testing.T) {
 						for _, dry := range []bool{false, true} {
 							rot++
 							c := c07Case{Forest: f, Entry: entry, DryRun: dry, Massive: rot%3 == 0}
+							if entry == "root" && rot%2 == 0 {
+								c.PreOps = []string{preOpPool[rot/2%len(preOpPool)]}
+							}
 							if rot%4 == 0 {
 								c.Exts = []string{hn, "d"}
 							}
@@ -221,6 +231,9 @@ func TestC07Random(t *testing.T) {
 		f := genForest(forestParams{maxNodes: 10, maxDepth: 6, names: names, oneRoot: entry == "root"}).Draw(rt, "forest")
 		c := c07Case{Forest: f, Entry: entry, DryRun: rapid.Bool().Draw(rt, "dry"), Massive: rapid.IntRange(0, 2).Draw(rt, "massive") == 0,
 			Exts: genExts(f.Names()).Draw(rt, "exts"), Missing: rapid.IntRange(0, 4).Draw(rt, "missing") == 0}
+		if entry == "root" && rapid.Bool().Draw(rt, "withPreOps") {
+			c.PreOps = rapid.SliceOfN(rapid.SampledFrom(preOpPool), 1, 3).Draw(rt, "preOps")
+		}
 		c07Record(col, c)
 		if msg := c07Check(c); msg != "" {
 			violation(rt, "C07", "c07", c, msg)
